@@ -856,6 +856,13 @@ func SubstituteParameters(layout Layout,
 
 	replacer := strings.NewReplacer(parameters...)
 
+	// The passed layout is a copy, but its step and inspection slices still
+	// share their backing arrays with the caller's layout. Substitute on
+	// copies, so that the caller's layout keeps its markers.
+	layout.Steps = append(make([]Step, 0, len(layout.Steps)), layout.Steps...)
+	layout.Inspect = append(make([]Inspection, 0, len(layout.Inspect)),
+		layout.Inspect...)
+
 	for i := range layout.Steps {
 		layout.Steps[i].ExpectedMaterials = substituteParametersInSliceOfSlices(
 			replacer, layout.Steps[i].ExpectedMaterials)
